@@ -7,18 +7,19 @@ set -u
 SRC=$(realpath "$1"); KIND=$2; DEMO=$3
 N=$(basename "$SRC"); W=/tmp/confirm/$N
 rm -rf "$W"; git -C /repo worktree prune; mkdir -p /tmp/confirm
-git -C /repo worktree add -q --detach "$W" HEAD || exit 2
+git -C /repo worktree add -q --detach "$W" "${BASE:-HEAD}" || exit 2
 trap 'git -C /repo worktree remove --force "$W" 2>/dev/null; rm -rf "$W"' EXIT
 export CARGO_TARGET_DIR="$W/target" CARGO_NET_OFFLINE=true
 cd "$W"
 place() { case "$KIND" in
-  test) mkdir -p tests; cp "$SRC/$DEMO" tests/seed_demo.rs;;
+  test*) mkdir -p tests; cp "$SRC/$DEMO" tests/seed_demo.rs;;
   example*) cp "$SRC/$DEMO" examples/seed_demo.rs;;
   sh) sed "s#/tmp/wt/$N#$W#g" "$SRC/$DEMO" > "$W/seed_demo.sh";;
 esac; }
 unplace() { rm -rf tests examples/seed_demo.rs seed_demo.sh; }
 rundemo() { case "$KIND" in
   test) cargo test --offline --test seed_demo > "$W/demo.log" 2>&1;;
+  test-release) cargo test --offline --release --test seed_demo > "$W/demo.log" 2>&1;;
   example) cargo run --offline --example seed_demo > "$W/demo.log" 2>&1;;
   example-release) cargo run --offline --release --example seed_demo > "$W/demo.log" 2>&1;;
   example-verif) cargo run --offline --features verif --example seed_demo > "$W/demo.log" 2>&1;;
